@@ -4,7 +4,7 @@
    state before ([extm]).  Rewinding to an older journal length therefore passes through every
    earlier state ([rewind_core_compose]) and the induction over arbitrary histories with nested
    snapshots/reverts only needs list reasoning about validRevisions. *)
-From Coq Require Import List NArith ZArith Bool Lia ZifyBool ZifyNat ZifyN.
+From Coq Require Import List NArith ZArith Bool Lia ZifyBool ZifyNat ZifyN Sorted.
 From GQ Require Import Lib.Key Lib.SMap Lib.C12_Laws Model.C12.
 Import ListNotations.
 
@@ -17,6 +17,8 @@ Lemma set_preim_id c : set_preim c (preim c) = c.  Proof. destruct c; reflexivit
 Lemma set_transient_id c : set_transient c (transient c) = c.  Proof. destruct c; reflexivity. Qed.
 Lemma set_al_id c : set_al c (al_addr c) (al_slots c) = c.  Proof. destruct c; reflexivity. Qed.
 Lemma set_logs_id c : set_logs c (logs c) (logsize c) = c.  Proof. destruct c; reflexivity. Qed.
+Lemma core_eta c : mkCore (objs c) (refund c) (logs c) (logsize c) (preim c) (al_addr c) (al_slots c) (transient c) = c.
+Proof. destruct c; reflexivity. Qed.
 
 (* ---------- replace_nth ---------- *)
 Lemma replace_nth_restore {A} n (x y : A) l :
@@ -77,7 +79,7 @@ Definition wf_objs (m : smap acct) : Prop :=
 
 Definition wf_al (addr : smap Z) (slots : list (smap unit)) : Prop :=
   forall a i, get a addr = Some i ->
-    (i < 0)%Z \/ exists ss, nth_error slots (Z.to_nat i) = Some ss /\ ss <> [].
+    i = (-1)%Z \/ ((0 <= i)%Z /\ exists ss, nth_error slots (Z.to_nat i) = Some ss /\ ss <> []).
 
 Definition WFc (c : core) : Prop :=
   wf_objs (objs c) /\ sorted (transient c) /\ nz (transient c) /\ wf_al (al_addr c) (al_slots c).
@@ -112,12 +114,10 @@ Proof.
   - apply sortedb_sorted; exact St.
   - apply nzb_nz; assumption.
   - intros a i G. pose proof (forallb_get _ _ _ _ (sortedb_sorted _ Sa) Al G) as E.
-    unfold wf_al_entryb in E. cbn in E. destruct i as [|p|p].
-    + right. destruct (nth_error (al_slots c) (Z.to_nat 0)) as [[|x ss]|]; try discriminate.
-      eexists; split; [reflexivity|discriminate].
-    + right. destruct (nth_error (al_slots c) (Z.to_nat (Z.pos p))) as [[|x ss]|]; try discriminate.
-      eexists; split; [reflexivity|discriminate].
-    + left. lia.
+    unfold wf_al_entryb in E. cbn [snd] in E.
+    destruct (Z.ltb i 0) eqn:Li; [left; lia|]. right. split; [lia|].
+    destruct (nth_error (al_slots c) (Z.to_nat i)) as [[|x ss]|] eqn:N; try discriminate.
+    exists (x :: ss). split; [reflexivity|discriminate].
 Qed.
 
 (* ---------- rewinding the journal ---------- *)
@@ -226,7 +226,7 @@ Lemma extm_upd m a o o' e f :
   extm m (upd a o' (append e m)).
 Proof.
   intros G D F U. unfold upd, with_objs. apply extm_append. cbn [m_core append].
-  rewrite U. apply undo_obj_after_upd; assumption.
+  rewrite U. apply (undo_obj_after_upd a o o' f); assumption.
 Qed.
 
 (* createObject *)
@@ -258,4 +258,893 @@ Proof.
   unfold get_or_new. destruct (live a (m_core m)) as [o|] eqn:L; cbn [fst snd].
   - apply live_get. exact L.
   - split; [apply create_object_get|reflexivity].
+Qed.
+
+(* ---------- frame lemmas for get_or_new ---------- *)
+Lemma extm_step m m' e :
+  m_jr m' = e :: m_jr m -> undo_core e (m_core m') = Some (m_core m) -> extm m m'.
+Proof. intros J U. unfold extm, cj. rewrite J. apply extc_single. exact U. Qed.
+
+Lemma get_or_new_core a m :
+  m_core (fst (get_or_new a m)) = set_objs (m_core m) (objs (m_core (fst (get_or_new a m)))).
+Proof.
+  unfold get_or_new. destruct (live a (m_core m)); cbn [fst].
+  - symmetry. apply set_objs_id.
+  - reflexivity.
+Qed.
+
+Lemma get_or_new_wf_objs a m :
+  wf_objs (objs (m_core m)) -> wf_objs (objs (m_core (fst (get_or_new a m)))).
+Proof.
+  intros W. unfold get_or_new. destruct (live a (m_core m)); cbn [fst]; [exact W|].
+  rewrite create_object_objs. apply wf_objs_put; [exact W|exact I|apply nz_nil].
+Qed.
+
+Lemma WFc_set_objs c v : WFc c -> wf_objs v -> WFc (set_objs c v).
+Proof. intros (W1 & W2 & W3 & W4) Wv. split; [exact Wv|split; [exact W2|split; [exact W3|exact W4]]]. Qed.
+
+Lemma get_or_new_WFc a m : WFc (m_core m) -> WFc (m_core (fst (get_or_new a m))).
+Proof.
+  intros W. rewrite get_or_new_core. apply WFc_set_objs; [exact W|].
+  apply get_or_new_wf_objs. apply W.
+Qed.
+
+(* destructs (get_or_new a m) into m1/ob with the facts the setter lemmas need *)
+Ltac gon a m m1 ob :=
+  let G := fresh "G" in
+  destruct (get_or_new a m) as [m1 ob] eqn:G;
+  let HE := fresh "HE" in let GL := fresh "GL" in let GD := fresh "GD" in let HW := fresh "HW" in
+  pose proof (get_or_new_ext a m) as HE;
+  pose proof (get_or_new_live a m) as [GL GD];
+  pose proof (get_or_new_WFc a m) as HW;
+  rewrite G in HE, GL, GD, HW; cbn [fst snd] in HE, GL, GD, HW.
+
+Lemma benign_fixed o m : benign true o m = true.
+Proof. destruct o; reflexivity. Qed.
+
+(* the object-field setters *)
+Lemma obj_set_balance_ext a ob v m :
+  get a (objs (m_core m)) = Some ob -> a_del ob = false -> extm m (obj_set_balance a ob v m).
+Proof.
+  intros G D. unfold obj_set_balance.
+  apply (extm_upd m a ob (set_bal ob v) _ (fun o => set_bal o (a_bal ob))); auto.
+  destruct ob; reflexivity.
+Qed.
+
+Lemma obj_set_size_ext a ob v m :
+  get a (objs (m_core m)) = Some ob -> a_del ob = false -> extm m (obj_set_size a ob v m).
+Proof.
+  intros G D. unfold obj_set_size.
+  apply (extm_upd m a ob (set_size ob v) _ (fun o => set_size o (a_size ob))); auto.
+  destruct ob; reflexivity.
+Qed.
+
+Lemma touch_ext a m : extm m (touch a m).
+Proof.
+  unfold touch. destruct (keqb a ripemd); apply (extm_step _ _ (ETouch a)); reflexivity.
+Qed.
+
+(* access list *)
+Lemma al_add_slot_ext a s m : WFc (m_core m) -> extm m (al_add_slot a s m).
+Proof.
+  intros (_ & _ & _ & WA). unfold al_add_slot.
+  set (c := m_core m) in *.
+  set (len := Z.of_nat (length (al_slots c))).
+  assert (Hundo : forall addr0,
+     undo_core (EALSlot a s) (set_al c (put a len addr0) (al_slots c ++ [[(s, tt)]]))
+     = Some (set_al c (put a (-1)%Z addr0) (al_slots c))).
+  { intros addr0. cbn [undo_core al_addr al_slots set_al]. rewrite get_put_same.
+    replace (Z.ltb len 0) with false by (unfold len; lia).
+    unfold len. rewrite Nat2Z.id, nth_error_app_length. cbn [del]. rewrite kcmp_refl.
+    rewrite put_put_same, firstn_length_app. reflexivity. }
+  destruct (get a (al_addr c)) as [i|] eqn:G.
+  - destruct (Z.ltb i 0) eqn:Li.
+    + (* present without slots (idx = -1) *)
+      destruct (WA a i G) as [->|[Hpos _]]; [|lia].
+      apply (extm_step _ _ (EALSlot a s)); [reflexivity|]. cbn [m_core append with_core].
+      rewrite Hundo, put_same_id by exact G. fold c. rewrite set_al_id. reflexivity.
+    + destruct (WA a i G) as [->|[_ [ss [N NE]]]]; [discriminate|]. rewrite N.
+      destruct (get s ss) eqn:Gs; [apply extm_refl|].
+      apply (extm_step _ _ (EALSlot a s)); [reflexivity|].
+      cbn [m_core append with_core undo_core al_addr al_slots set_al].
+      fold c. rewrite G, Li. rewrite (nth_error_replace_nth_same _ _ _ _ N).
+      rewrite del_put_absent by exact Gs.
+      destruct ss as [|x ss]; [congruence|].
+      rewrite replace_nth_restore by exact N. subst c. destruct (m_core m); reflexivity.
+  - (* address absent: two entries *)
+    apply (extm_trans _ (append (EALAccount a) (with_core m (set_al c (put a (-1)%Z (al_addr c)) (al_slots c))))).
+    + apply (extm_step _ _ (EALAccount a)); [reflexivity|].
+      cbn [m_core append with_core undo_core al_addr al_slots set_al].
+      rewrite del_put_absent by exact G. subst c. destruct (m_core m); reflexivity.
+    + apply (extm_step _ _ (EALSlot a s)); [reflexivity|]. cbn [m_core append with_core].
+      fold c. fold len. rewrite Hundo. reflexivity.
+Qed.
+
+(* ---------- every mutator extends the journal and rewinds to where it started ---------- *)
+Lemma mutate_ext fx o m : WFc (m_core m) -> benign fx o m = true -> extm m (fst (mutate fx o m)).
+Proof.
+  intros W B. destruct o; unfold mutate.
+  - (* AddBalance *)
+    gon a m m1 ob. destruct (Z.eqb v 0); cbn [fst].
+    + destruct (acct_empty ob); [|exact HE]. eapply extm_trans; [exact HE|apply touch_ext].
+    + eapply extm_trans; [exact HE|]. apply obj_set_balance_ext; assumption.
+  - (* SubBalance *)
+    gon a m m1 ob. destruct (Z.eqb v 0); cbn [fst]; [exact HE|].
+    eapply extm_trans; [exact HE|]. apply obj_set_balance_ext; assumption.
+  - (* SetBalance *)
+    gon a m m1 ob. cbn [fst]. eapply extm_trans; [exact HE|]. apply obj_set_balance_ext; assumption.
+  - (* SetNonce *)
+    gon a m m1 ob. cbn [fst]. eapply extm_trans; [exact HE|].
+    apply (extm_upd m1 a ob (set_nonce ob n) _ (fun o => set_nonce o (a_nonce ob))); auto.
+    destruct ob; reflexivity.
+  - (* SetCode *)
+    gon a m m1 ob. cbn [fst]. eapply extm_trans; [exact HE|].
+    apply (extm_upd m1 a ob (set_code ob c) _ (fun o => set_code o (a_code ob))); auto.
+    destruct ob; reflexivity.
+  - (* SetState *)
+    gon a m m1 ob. destruct (N.eqb (getw k (a_stor ob)) v); cbn [fst]; [exact HE|].
+    eapply extm_trans; [exact HE|].
+    destruct (proj1 (HW W) a ob GL) as [Sst Zst].
+    apply (extm_upd m1 a ob (set_stor ob (setw k v (a_stor ob))) _
+             (fun o => set_stor o (setw k (getw k (a_stor ob)) (a_stor o)))); auto.
+    cbn [a_stor set_stor]. rewrite setw_restore by assumption. destruct ob; reflexivity.
+  - (* Suicide *)
+    destruct (live a (m_core m)) as [ob|] eqn:L; cbn [fst]; [|apply extm_refl].
+    apply live_get in L as [GL GD]. cbn [benign] in B.
+    unfold upd, with_objs. apply extm_append. cbn [m_core append undo_core].
+    rewrite live_put by (destruct ob; exact GD). cbn [objs set_objs].
+    rewrite set_objs_set_objs, put_put_same.
+    destruct fx; cbn [orb] in B |- *.
+    + replace (set_size (set_bal (set_suic (set_size (set_bal (set_suic ob true) 0) 0) (a_suic ob)) (a_bal ob)) (a_size ob))
+        with ob by (destruct ob; reflexivity).
+      rewrite put_same_id by exact GL. rewrite set_objs_id. reflexivity.
+    + unfold live in B. rewrite GL, GD in B. apply Z.eqb_eq in B.
+      replace (set_bal (set_suic (set_size (set_bal (set_suic ob true) 0) 0) (a_suic ob)) (a_bal ob))
+        with ob by (destruct ob; cbn in *; subst; reflexivity).
+      rewrite put_same_id by exact GL. rewrite set_objs_id. reflexivity.
+  - (* CreateAccount *)
+    destruct (create_object a m) as [m1 prev] eqn:C.
+    pose proof (create_object_ext a m) as HE. rewrite C in HE. cbn [fst] in HE.
+    destruct prev as [p|]; cbn [fst]; [|exact HE].
+    unfold create_object in C. inversion C as [[C1 C2]]; subst m1. clear C.
+    unfold upd, with_objs. cbn [m_core with_core append objs set_objs].
+    apply (extm_step _ _ (match get a (objs (m_core m)) with
+                          | Some p0 => EResetObject a p0 | None => ECreateObject a end)); [reflexivity|].
+    cbn [m_core with_core]. destruct (get a (objs (m_core m))) as [p0|] eqn:G; [|discriminate].
+    cbn [undo_core objs set_objs]. rewrite !set_objs_set_objs, !put_put_same, put_same_id by exact G.
+    rewrite set_objs_id. reflexivity.
+  - (* GetOrNew *)
+    cbn [fst]. apply get_or_new_ext.
+  - (* SetSize *)
+    gon a m m1 ob. cbn [fst]. eapply extm_trans; [exact HE|]. apply obj_set_size_ext; assumption.
+  - gon a m m1 ob. cbn [fst]. eapply extm_trans; [exact HE|]. apply obj_set_size_ext; assumption.
+  - gon a m m1 ob. cbn [fst]. eapply extm_trans; [exact HE|]. apply obj_set_size_ext; assumption.
+  - (* AddLog *)
+    cbn [fst]. apply extm_append. cbn [m_core append undo_core logs logsize set_logs].
+    rewrite removelast_last. replace (logsize (m_core m) + 1 - 1)%N with (logsize (m_core m)) by lia.
+    destruct (m_core m); reflexivity.
+  - (* AddPreimage *)
+    destruct (get h (preim (m_core m))) eqn:G; cbn [fst]; [apply extm_refl|].
+    apply extm_append. cbn [m_core append undo_core preim set_preim].
+    rewrite del_put_absent by exact G. destruct (m_core m); reflexivity.
+  - (* AddRefund *)
+    cbn [fst]. apply extm_append. cbn [m_core append undo_core]. destruct (m_core m); reflexivity.
+  - (* SubRefund *)
+    cbn [m_core append]. destruct (N.ltb (refund (m_core m)) g); cbn [fst].
+    + apply (extm_step _ _ (ERefund (refund (m_core m)))); [reflexivity|].
+      cbn [m_core append undo_core]. rewrite set_refund_id. reflexivity.
+    + apply extm_append. cbn [m_core append undo_core]. destruct (m_core m); reflexivity.
+  - (* ALAddr *)
+    destruct (get a (al_addr (m_core m))) eqn:G; cbn [fst]; [apply extm_refl|].
+    apply (extm_step _ _ (EALAccount a)); [reflexivity|].
+    cbn [m_core append with_core undo_core al_addr al_slots set_al].
+    rewrite del_put_absent by exact G. destruct (m_core m); reflexivity.
+  - (* ALSlot *)
+    cbn [fst]. apply al_add_slot_ext. exact W.
+  - (* SetTransient *)
+    destruct (N.eqb (getw (a ++ k) (transient (m_core m))) v); cbn [fst]; [apply extm_refl|].
+    apply extm_append. cbn [m_core append undo_core transient set_transient].
+    destruct W as (_ & St & Zt & _). rewrite setw_restore by assumption.
+    destruct (m_core m); reflexivity.
+  - apply extm_refl.
+  - apply extm_refl.
+Qed.
+
+(* ---------- mutators preserve well-formedness ---------- *)
+Lemma WFc_upd a o' e m :
+  WFc (m_core m) -> sorted (a_stor o') -> nz (a_stor o') -> WFc (m_core (upd a o' (append e m))).
+Proof.
+  intros W S Z. unfold upd, with_objs. cbn [m_core with_core append].
+  apply WFc_set_objs; [exact W|]. apply wf_objs_put; [apply W|exact S|exact Z].
+Qed.
+
+Lemma WFc_upd_same_stor a ob o' e m :
+  WFc (m_core m) -> get a (objs (m_core m)) = Some ob -> a_stor o' = a_stor ob ->
+  WFc (m_core (upd a o' (append e m))).
+Proof.
+  intros W G E. destruct (proj1 W a ob G) as [S Z]. apply WFc_upd; [exact W|rewrite E; exact S|rewrite E; exact Z].
+Qed.
+
+Lemma create_object_WFc a m : WFc (m_core m) -> WFc (m_core (fst (create_object a m))).
+Proof.
+  intros W. unfold create_object. cbn [fst]. unfold with_objs. cbn [m_core with_core append].
+  apply WFc_set_objs; [exact W|]. apply wf_objs_put; [apply W|exact I|apply nz_nil].
+Qed.
+
+Lemma wf_al_put_neg a addr slots : wf_al addr slots -> wf_al (put a (-1)%Z addr) slots.
+Proof.
+  intros W a0 i. rewrite get_put_eq_dec. destruct (keqb a0 a).
+  - intros H; inversion H; auto.
+  - apply W.
+Qed.
+
+Lemma WFc_set_al c a s : WFc c -> wf_al a s -> WFc (set_al c a s).
+Proof. intros (W1 & W2 & W3 & W4) H. split; [exact W1|split; [exact W2|split; [exact W3|exact H]]]. Qed.
+
+Lemma al_add_slot_WFc a s m : WFc (m_core m) -> WFc (m_core (al_add_slot a s m)).
+Proof.
+  intros W. pose proof W as (_ & _ & _ & WA). unfold al_add_slot. set (c := m_core m) in *.
+  assert (Hfresh : wf_al (put a (Z.of_nat (length (al_slots c))) (al_addr c)) (al_slots c ++ [[(s, tt)]])).
+  { intros a0 i. rewrite get_put_eq_dec. destruct (keqb a0 a).
+    - intros H; inversion H; subst. right. split; [lia|]. rewrite Nat2Z.id, nth_error_app_length.
+      eexists; split; [reflexivity|discriminate].
+    - intros G. destruct (WA a0 i G) as [->|[P [ss [N NE]]]]; [left; reflexivity|].
+      right. split; [exact P|]. exists ss. split; [apply nth_error_app_lt; exact N|exact NE]. }
+  destruct (get a (al_addr c)) as [i|] eqn:G.
+  - destruct (Z.ltb i 0) eqn:Li.
+    + cbn [m_core append with_core]. apply WFc_set_al; assumption.
+    + destruct (nth_error (al_slots c) (Z.to_nat i)) as [ss|] eqn:N; [|exact W].
+      destruct (get s ss) eqn:Gs; [exact W|].
+      cbn [m_core append with_core]. apply WFc_set_al; [exact W|].
+      intros a0 i0 G0.
+      destruct (WA a0 i0 G0) as [->|[P [ss0 [N0 NE0]]]]; [left; reflexivity|].
+      right. split; [exact P|].
+      destruct (Nat.eq_dec (Z.to_nat i0) (Z.to_nat i)) as [E|E].
+      * rewrite E. rewrite (nth_error_replace_nth_same _ _ _ _ N).
+        eexists; split; [reflexivity|]. intros H.
+        assert (get s (put s tt ss) = Some tt) as X by apply get_put_same. rewrite H in X. discriminate.
+      * rewrite nth_error_replace_nth_other by exact E. exists ss0. auto.
+  - cbn [m_core append with_core]. apply WFc_set_al; assumption.
+Qed.
+
+Lemma WFc_same_objs_tr_al c c' :
+  WFc c -> objs c' = objs c -> transient c' = transient c -> al_addr c' = al_addr c -> al_slots c' = al_slots c -> WFc c'.
+Proof. intros (W1 & W2 & W3 & W4) E1 E2 E3 E4. unfold WFc. rewrite E1, E2, E3, E4. auto. Qed.
+
+Lemma mutate_WFc fx o m : WFc (m_core m) -> WFc (m_core (fst (mutate fx o m))).
+Proof.
+  intros W. destruct o; unfold mutate.
+  - gon a m m1 ob. specialize (HW W). destruct (Z.eqb v 0); cbn [fst].
+    + destruct (acct_empty ob); [|exact HW]. unfold touch. destruct (keqb a ripemd); exact HW.
+    + unfold obj_set_balance. eapply WFc_upd_same_stor; eauto.
+  - gon a m m1 ob. specialize (HW W). destruct (Z.eqb v 0); cbn [fst]; [exact HW|].
+    unfold obj_set_balance. eapply WFc_upd_same_stor; eauto.
+  - gon a m m1 ob. specialize (HW W). cbn [fst]. unfold obj_set_balance. eapply WFc_upd_same_stor; eauto.
+  - gon a m m1 ob. specialize (HW W). cbn [fst]. eapply WFc_upd_same_stor; eauto.
+  - gon a m m1 ob. specialize (HW W). cbn [fst]. eapply WFc_upd_same_stor; eauto.
+  - gon a m m1 ob. specialize (HW W). destruct (N.eqb (getw k (a_stor ob)) v); cbn [fst]; [exact HW|].
+    destruct (proj1 HW a ob GL) as [S Z].
+    apply WFc_upd; [exact HW|apply setw_sorted; exact S|apply setw_nz; assumption].
+  - destruct (live a (m_core m)) as [ob|] eqn:L; cbn [fst]; [|exact W].
+    apply live_get in L as [GL GD]. eapply WFc_upd_same_stor; eauto.
+  - destruct (create_object a m) as [m1 prev] eqn:C.
+    pose proof (create_object_WFc a m W) as HW. rewrite C in HW. cbn [fst] in HW.
+    destruct prev as [p|]; cbn [fst]; [|exact HW].
+    unfold upd, with_objs. cbn [m_core with_core].
+    apply WFc_set_objs; [exact HW|]. apply wf_objs_put; [apply HW|exact I|apply nz_nil].
+  - cbn [fst]. apply get_or_new_WFc. exact W.
+  - gon a m m1 ob. specialize (HW W). cbn [fst]. unfold obj_set_size. eapply WFc_upd_same_stor; eauto.
+  - gon a m m1 ob. specialize (HW W). cbn [fst]. unfold obj_set_size. eapply WFc_upd_same_stor; eauto.
+  - gon a m m1 ob. specialize (HW W). cbn [fst]. unfold obj_set_size. eapply WFc_upd_same_stor; eauto.
+  - cbn [fst m_core with_core append]. apply (WFc_same_objs_tr_al (m_core m)); auto.
+  - destruct (get h (preim (m_core m))); cbn [fst]; [exact W|].
+    cbn [m_core with_core append]. apply (WFc_same_objs_tr_al (m_core m)); auto.
+  - cbn [fst m_core with_core append]. apply (WFc_same_objs_tr_al (m_core m)); auto.
+  - cbn [m_core append]. destruct (N.ltb (refund (m_core m)) g); cbn [fst m_core with_core append]; [exact W|].
+    apply (WFc_same_objs_tr_al (m_core m)); auto.
+  - destruct (get a (al_addr (m_core m))) eqn:G; cbn [fst]; [exact W|].
+    cbn [m_core with_core append]. apply WFc_set_al; [exact W|].
+    apply wf_al_put_neg. apply W.
+  - cbn [fst]. apply al_add_slot_WFc. exact W.
+  - destruct (N.eqb (getw (a ++ k) (transient (m_core m))) v); cbn [fst]; [exact W|].
+    cbn [m_core with_core append]. destruct W as (W1 & W2 & W3 & W4).
+    split; [exact W1|]. cbn [transient set_transient al_addr al_slots].
+    split; [apply setw_sorted; exact W2|split; [apply setw_nz; assumption|exact W4]].
+  - exact W.
+  - exact W.
+Qed.
+
+(* ---------- lists sorted by a relation ---------- *)
+Section SS.
+Context {A : Type} (R : A -> A -> Prop).
+
+Lemma SS_snoc l r : StronglySorted R l -> (forall a, In a l -> R a r) -> StronglySorted R (l ++ [r]).
+Proof.
+  induction l as [|h t IH]; cbn; intros S H.
+  - constructor; [constructor|constructor].
+  - inversion S as [|? ? S' F]; subst. constructor.
+    + apply IH; [exact S'|]. intros a Ha. apply H. right. exact Ha.
+    + apply Forall_app. split; [exact F|]. constructor; [|constructor]. apply H. left. reflexivity.
+Qed.
+
+Lemma SS_app_l l1 l2 : StronglySorted R (l1 ++ l2) -> StronglySorted R l1.
+Proof.
+  induction l1 as [|h t IH]; cbn; intros S; [constructor|].
+  inversion S as [|? ? S' F]; subst. constructor; [apply IH; exact S'|].
+  apply Forall_app in F. apply F.
+Qed.
+
+Lemma SS_app_rel l1 l2 a b : StronglySorted R (l1 ++ l2) -> In a l1 -> In b l2 -> R a b.
+Proof.
+  induction l1 as [|h t IH]; cbn; intros S Ha Hb; [contradiction|].
+  inversion S as [|? ? S' F]; subst. destruct Ha as [->|Ha].
+  - rewrite Forall_forall in F. apply F. apply in_or_app. right. exact Hb.
+  - apply IH; assumption.
+Qed.
+End SS.
+
+(* ---------- the whole StateDB ---------- *)
+
+Lemma step_mut fx x o : is_mut o = true ->
+  s_m (fst (step fx x o)) = fst (mutate fx o (s_m x)) /\
+  s_revs (fst (step fx x o)) = s_revs x /\ s_next (fst (step fx x o)) = s_next x /\
+  snd (step fx x o) = snd (mutate fx o (s_m x)).
+Proof.
+  intros H. destruct o; try discriminate; unfold step;
+    destruct (mutate fx _ (s_m x)) as [m' r]; cbn; auto.
+Qed.
+
+Lemma search_rev_spec id l k i r :
+  search_rev id l k = Some (i, r) ->
+  exists l1 l2, l = l1 ++ r :: l2 /\ i = k + length l1 /\ (forall r', In r' l1 -> (fst r' < id)%N) /\ (id <= fst r)%N.
+Proof.
+  revert k; induction l as [|h t IH]; intros k; cbn [search_rev]; [discriminate|].
+  destruct (N.leb id (fst h)) eqn:E.
+  - intros H; inversion H; subst. exists [], t. cbn. split; [reflexivity|split; [lia|split; [intros ? []|lia]]].
+  - intros H. destruct (IH _ H) as (l1 & l2 & -> & -> & F & L).
+    exists (h :: l1), l2. cbn. split; [reflexivity|split; [lia|split; [|exact L]]].
+    intros r' [<-|Hr]; [lia|apply F; exact Hr].
+Qed.
+
+Lemma search_rev_found id n l1 l2 k :
+  (forall r', In r' l1 -> (fst r' < id)%N) ->
+  search_rev id (l1 ++ (id, n) :: l2) k = Some (k + length l1, (id, n)).
+Proof.
+  revert k; induction l1 as [|h t IH]; intros k F; cbn [search_rev app length].
+  - cbn [fst]. rewrite N.leb_refl. f_equal. f_equal. lia.
+  - assert (fst h < id)%N as H by (apply F; left; reflexivity).
+    replace (N.leb id (fst h)) with false by lia.
+    rewrite IH by (intros r' Hr; apply F; right; exact Hr). f_equal. f_equal. lia.
+Qed.
+
+Definition Rrev (r1 r2 : N * nat) : Prop := (fst r1 < fst r2)%N /\ snd r1 <= snd r2.
+
+Record Inv (x : sdb) : Prop := mkInv {
+  inv_wf : WFc (m_core (s_m x));
+  inv_ids : forall r, In r (s_revs x) -> (fst r < s_next x)%N;
+  inv_sorted : StronglySorted Rrev (s_revs x);
+  inv_idx : forall r, In r (s_revs x) -> snd r <= length (m_jr (s_m x));
+  inv_back : forall r, In r (s_revs x) ->
+      exists c j, rewind_core (snd r) (m_core (s_m x)) (m_jr (s_m x)) = Some (c, j) /\ WFc c
+}.
+
+Lemma Inv_fresh c d n : WFc c -> Inv (fresh c d n).
+Proof.
+  intros W. constructor; cbn; try (intros ? []); [exact W|constructor].
+Qed.
+
+Lemma extm_length m m' : extm m m' -> length (m_jr m) <= length (m_jr m').
+Proof. intros [es [E _]]. cbn in E. rewrite E, app_length. lia. Qed.
+
+Lemma extm_rewind m m' n : extm m m' -> n <= length (m_jr m) ->
+  rewind_core n (m_core m') (m_jr m') = rewind_core n (m_core m) (m_jr m).
+Proof.
+  intros [es [E R]] L. cbn [cj fst snd] in *.
+  apply (rewind_core_compose n (length (m_jr m))); [exact L|exact R].
+Qed.
+
+Lemma Inv_step fx x o : Inv x -> benign fx o (s_m x) = true -> Inv (fst (step fx x o)).
+Proof.
+  intros [W Ids Srt Idx Back] B.
+  destruct (is_mut o) eqn:M.
+  - destruct (step_mut fx x o M) as (E1 & E2 & E3 & _).
+    pose proof (mutate_ext fx o (s_m x) W B) as X.
+    constructor; rewrite ?E1, ?E2, ?E3; auto.
+    + apply mutate_WFc. exact W.
+    + intros r Hr. pose proof (Idx r Hr). pose proof (extm_length _ _ X). lia.
+    + intros r Hr. rewrite (extm_rewind _ _ _ X (Idx r Hr)). apply Back. exact Hr.
+  - destruct o; try discriminate.
+    + (* Snapshot *)
+      cbn [step fst]. constructor; cbn [s_m s_revs s_next].
+      * exact W.
+      * intros r Hr. apply in_app_or in Hr as [Hr|[<-|[]]]; [pose proof (Ids r Hr); lia|cbn; lia].
+      * apply SS_snoc; [exact Srt|]. intros a Ha. split; cbn; [apply Ids; exact Ha|apply Idx; exact Ha].
+      * intros r Hr. apply in_app_or in Hr as [Hr|[<-|[]]]; [apply Idx; exact Hr|cbn; lia].
+      * intros r Hr. apply in_app_or in Hr as [Hr|[<-|[]]]; [apply Back; exact Hr|].
+        cbn [snd]. exists (m_core (s_m x)), (m_jr (s_m x)). split; [apply rewind_core_ge; lia|exact W].
+    + (* Revert *)
+      cbn [step]. destruct (search_rev id (s_revs x) 0) as [[i [id' n]]|] eqn:S; [|constructor; assumption].
+      destruct (N.eqb id' id); [|constructor; assumption].
+      apply search_rev_spec in S as (l1 & l2 & E & -> & F & L). cbn [Nat.add].
+      assert (In (id', n) (s_revs x)) as Hin by (rewrite E; apply in_or_app; right; left; reflexivity).
+      destruct (Back _ Hin) as (c & j & R & Wc). cbn [snd] in R.
+      unfold rewind. rewrite R. cbn [fst].
+      rewrite E, firstn_length_app.
+      pose proof (rewind_core_length _ _ _ _ _ R) as Lj. pose proof (Idx _ Hin) as Ln. cbn [snd] in Ln.
+      assert (forall r, In r l1 -> In r (s_revs x)) as Sub by (intros r Hr; rewrite E; apply in_or_app; left; exact Hr).
+      assert (forall r, In r l1 -> snd r <= n) as Le.
+      { intros r Hr. rewrite E in Srt. apply (SS_app_rel Rrev l1 ((id', n) :: l2) r (id', n) Srt Hr). left. reflexivity. }
+      constructor; cbn [s_m s_revs s_next m_core m_jr].
+      * exact Wc.
+      * intros r Hr. apply Ids. apply Sub. exact Hr.
+      * rewrite E in Srt. apply (SS_app_l Rrev _ _ Srt).
+      * intros r Hr. specialize (Le r Hr). lia.
+      * intros r Hr. rewrite <- (rewind_core_compose (snd r) n _ _ _ _ (Le r Hr) R). apply Back. apply Sub. exact Hr.
+Qed.
+
+Fixpoint all_benign (fx : bool) (x : sdb) (ops : list op) : bool :=
+  match ops with
+  | [] => true
+  | o :: t => benign fx o (s_m x) && all_benign fx (fst (step fx x o)) t
+  end.
+
+Lemma all_benign_fixed x ops : all_benign true x ops = true.
+Proof. revert x; induction ops as [|o t IH]; intros x; cbn; [reflexivity|]. rewrite benign_fixed, IH. reflexivity. Qed.
+
+Lemma Inv_run fx ops : forall x, Inv x -> all_benign fx x ops = true -> Inv (run fx x ops).
+Proof.
+  induction ops as [|o t IH]; intros x I B; cbn in *; [exact I|].
+  apply andb_prop in B as [B1 B2]. apply IH; [apply Inv_step; assumption|exact B2].
+Qed.
+
+(* ---------- the anchored snapshot ---------- *)
+(* y is a state reached after taking snapshot [id] in x: either the snapshot is still on the
+   stack of valid revisions and the journal rewinds to exactly x's state, or it is gone for good *)
+Definition anchored (x y : sdb) (id : N) : Prop :=
+  exists top, s_revs y = s_revs x ++ (id, length (m_jr (s_m x))) :: top /\
+    rewind_core (length (m_jr (s_m x))) (m_core (s_m y)) (m_jr (s_m y)) = Some (m_core (s_m x), m_jr (s_m x)).
+
+Definition dead (y : sdb) (id : N) : Prop := ~ In id (map fst (s_revs y)) /\ (id < s_next y)%N.
+
+Lemma dead_step fx y o id : dead y id -> dead (fst (step fx y o)) id.
+Proof.
+  intros [Nin Lt]. destruct (is_mut o) eqn:M.
+  - destruct (step_mut fx y o M) as (_ & E2 & E3 & _). unfold dead. rewrite E2, E3. auto.
+  - destruct o; try discriminate.
+    + cbn [step fst]. split; cbn [s_revs s_next]; [|lia].
+      rewrite map_app, in_app_iff. cbn. intros [H|[H|[]]]; [auto|lia].
+    + cbn [step]. destruct (search_rev id0 (s_revs y) 0) as [[i [id' n]]|]; [|split; assumption].
+      destruct (N.eqb id' id0); [|split; assumption].
+      destruct (rewind n (s_m y)); [|split; assumption].
+      cbn [fst]. split; cbn [s_revs s_next]; [|exact Lt].
+      intros H. apply Nin. apply in_map_iff in H as (r & <- & Hr). apply in_map.
+      rewrite <- (firstn_skipn i (s_revs y)). apply in_or_app. left. exact Hr.
+Qed.
+
+Lemma anchored_step fx x y o id :
+  Inv y -> benign fx o (s_m y) = true -> anchored x y id ->
+  (forall r, In r (s_revs x) -> (fst r < id)%N) ->
+  anchored x (fst (step fx y o)) id \/ dead (fst (step fx y o)) id.
+Proof.
+  intros I B (top & Er & Rw) Old. set (n := length (m_jr (s_m x))) in *.
+  assert (In (id, n) (s_revs y)) as Hid by (rewrite Er; apply in_or_app; right; left; reflexivity).
+  pose proof (inv_idx y I _ Hid) as Ln. cbn [snd] in Ln.
+  destruct (is_mut o) eqn:M.
+  - left. destruct (step_mut fx y o M) as (E1 & E2 & _).
+    exists top. rewrite E1, E2. split; [exact Er|]. fold n.
+    rewrite (extm_rewind _ _ n (mutate_ext fx o (s_m y) (inv_wf y I) B) Ln). exact Rw.
+  - destruct o; try discriminate.
+    + left. cbn [step fst]. exists (top ++ [(s_next y, length (m_jr (s_m y)))]). cbn [s_revs s_m].
+      split; [|exact Rw]. rewrite Er, <- app_assoc. reflexivity.
+    + cbn [step]. destruct (search_rev id0 (s_revs y) 0) as [[i [id' n']]|] eqn:S; [|left; exists top; auto].
+      destruct (N.eqb id' id0); [|left; exists top; auto].
+      apply search_rev_spec in S as (l1 & l2 & E & -> & F & L). cbn [Nat.add].
+      assert (In (id', n') (s_revs y)) as Hin by (rewrite E; apply in_or_app; right; left; reflexivity).
+      destruct (inv_back y I _ Hin) as (c & j & R & Wc). cbn [snd] in R.
+      unfold rewind. rewrite R. cbn [fst]. rewrite E, firstn_length_app.
+      rewrite Er in E. symmetry in E. apply app_eq_app in E as [l [[E1 E2]|[E1 E2]]].
+      * (* the reverted revision lies at or after ours *)
+        destruct l as [|r0 l].
+        -- (* it is ours: gone *)
+           right. rewrite app_nil_r in E1. subst l1. split; cbn [s_revs s_next].
+           ++ intros H. apply in_map_iff in H as (r & Hr1 & Hr2). specialize (Old r Hr2). lia.
+           ++ apply (inv_ids y I _ Hid).
+        -- (* strictly after: ours stays, and rewinding further passes through the same states *)
+           left. cbn in E2. inversion E2; subst r0 top. exists l. cbn [s_revs s_m m_core m_jr].
+           split; [exact E1|].
+           assert (n <= n') as Le.
+           {              pose proof (inv_sorted y I) as Srt2. rewrite Er in Srt2.
+             change ((id, n) :: l ++ (id', n') :: l2) with ([(id, n)] ++ (l ++ (id', n') :: l2)) in Srt2.
+             rewrite app_assoc in Srt2.
+             apply (SS_app_rel Rrev _ _ (id, n) (id', n') Srt2).
+             - apply in_or_app. right. left. reflexivity.
+             - apply in_or_app. right. left. reflexivity. }
+           fold n. rewrite <- (rewind_core_compose n n' _ _ _ _ Le R). exact Rw.
+      * (* strictly before ours: ours is cut off *)
+        right. split; cbn [s_revs s_next].
+        -- intros H. apply in_map_iff in H as (r & Hr1 & Hr2).
+           assert (In r (s_revs x)) as Hx by (rewrite E1; apply in_or_app; left; exact Hr2).
+           specialize (Old r Hx). lia.
+        -- apply (inv_ids y I _ Hid).
+Qed.
+
+Lemma run_anchor fx x id ops : forall y,
+  (forall r, In r (s_revs x) -> (fst r < id)%N) ->
+  Inv y -> all_benign fx y ops = true -> (anchored x y id \/ dead y id) ->
+  Inv (run fx y ops) /\ (anchored x (run fx y ops) id \/ dead (run fx y ops) id).
+Proof.
+  induction ops as [|o t IH]; intros y Old I B A; cbn in *; [auto|].
+  apply andb_prop in B as [B1 B2].
+  apply IH; [exact Old|apply Inv_step; assumption|exact B2|].
+  destruct A as [A|D]; [apply anchored_step; assumption|right; apply dead_step; exact D].
+Qed.
+
+(* The main lemma: any history after a snapshot, then revert to it. *)
+Lemma revert_restores_gen fx x ops :
+  Inv x ->
+  let id := s_next x in
+  let x1 := fst (step fx x OSnapshot) in
+  all_benign fx x1 ops = true ->
+  let x2 := run fx x1 ops in
+  In id (map fst (s_revs x2)) ->
+  snd (step fx x2 (ORevert id)) = OutNone /\
+  m_core (s_m (fst (step fx x2 (ORevert id)))) = m_core (s_m x) /\
+  m_jr (s_m (fst (step fx x2 (ORevert id)))) = m_jr (s_m x) /\
+  s_revs (fst (step fx x2 (ORevert id))) = s_revs x.
+Proof.
+  intros I id x1 B x2 Hin.
+  assert (Old : forall r, In r (s_revs x) -> (fst r < id)%N) by (intros r Hr; apply (inv_ids x I r Hr)).
+  assert (I1 : Inv x1) by (apply Inv_step; [exact I|reflexivity]).
+  assert (A1 : anchored x x1 id).
+  { exists []. cbn. split; [reflexivity|]. apply rewind_core_ge. lia. }
+  destruct (run_anchor fx x id ops x1 Old I1 B (or_introl A1)) as [I2 [A2|D2]].
+  2:{ exfalso. apply (proj1 D2). exact Hin. }
+  fold x2 in I2, A2. destruct A2 as (top & Er & Rw).
+  cbn [step]. rewrite Er, search_rev_found by exact Old. cbn [Nat.add].
+  rewrite N.eqb_refl. unfold rewind. rewrite Rw. cbn [fst snd s_m s_revs m_core m_jr].
+  rewrite firstn_length_app. auto.
+Qed.
+
+(* ---------- journal.dirties is the image of the journal ---------- *)
+Fixpoint dirt_of (d0 : smap Z) (j : list entry) : smap Z :=
+  match j with
+  | [] => d0
+  | e :: j' => match dirtied e with Some a => dinc a (dirt_of d0 j') | None => dirt_of d0 j' end
+  end.
+
+Definition dpos (d : smap Z) : Prop := forall a c, get a d = Some c -> (0 < c)%Z.
+
+Lemma dpos_dinc a d : dpos d -> dpos (dinc a d).
+Proof.
+  intros P a0 c. unfold dinc, dcount. rewrite get_put_eq_dec. destruct (keqb a0 a).
+  - intros H; inversion H; subst. destruct (get a d) as [c0|] eqn:G; [specialize (P a c0 G)|]; lia.
+  - apply P.
+Qed.
+
+Lemma dpos_dirt_of d0 j : dpos d0 -> dpos (dirt_of d0 j).
+Proof. intros P. induction j as [|e j IH]; cbn; [exact P|]. destruct (dirtied e); [apply dpos_dinc|]; exact IH. Qed.
+
+Lemma ddec_dinc a d : dpos d -> ddec a (dinc a d) = d.
+Proof.
+  intros P. unfold ddec.
+  assert (dcount a (dinc a d) = dcount a d + 1)%Z as H
+    by (unfold dcount at 1, dinc; rewrite get_put_same; reflexivity).
+  rewrite H. replace (dcount a d + 1 - 1)%Z with (dcount a d) by lia.
+  unfold dinc, dcount. destruct (get a d) as [c|] eqn:G.
+  - specialize (P a c G). replace (Z.eqb c 0) with false by lia. apply put_restore. exact G.
+  - cbn. apply del_put_absent. exact G.
+Qed.
+
+Definition not_size (e : entry) : Prop := match e with ESize _ _ => False | _ => True end.
+
+Lemma undo_dirt_dirt_of d0 e j : dpos d0 -> not_size e -> undo_dirt e (dirt_of d0 (e :: j)) = dirt_of d0 j.
+Proof.
+  intros P NS. cbn [dirt_of]. destruct e; cbn [undo_dirt dirtied]; try reflexivity;
+    try (apply ddec_dinc; apply dpos_dirt_of; exact P). destruct NS.
+Qed.
+
+Lemma rewind_dirt_image d0 n j : dpos d0 -> Forall not_size j ->
+  rewind_dirt n (dirt_of d0 j) j = dirt_of d0 (skipn (length j - n) j).
+Proof.
+  intros P. induction j as [|e j IH]; intros F; [reflexivity|].
+  inversion F as [|? ? NS F']; subst. cbn [rewind_dirt].
+  destruct (Nat.ltb n (length (e :: j))) eqn:E.
+  - apply Nat.ltb_lt in E. rewrite undo_dirt_dirt_of by assumption. rewrite IH by exact F'.
+    cbn [length] in *. replace (S (length j) - n) with (S (length j - n)) by lia. reflexivity.
+  - apply Nat.ltb_ge in E. replace (length (e :: j) - n) with 0 by lia. reflexivity.
+Qed.
+
+Lemma rewind_core_skipn n c j c' j' : rewind_core n c j = Some (c', j') -> j' = skipn (length j - n) j.
+Proof.
+  revert c; induction j as [|e j IH]; intros c; cbn [rewind_core].
+  - intros H; inversion H; reflexivity.
+  - destruct (Nat.ltb n (length (e :: j))) eqn:E.
+    + apply Nat.ltb_lt in E. destruct (undo_core e c) as [c1|]; [|discriminate]. intros H.
+      apply IH in H. cbn [length] in *. replace (S (length j) - n) with (S (length j - n)) by lia. exact H.
+    + apply Nat.ltb_ge in E. intros H; inversion H; subst.
+      replace (length (e :: j) - n) with 0 by lia. reflexivity.
+Qed.
+
+Lemma Forall_skipn {A} (P : A -> Prop) k l : Forall P l -> Forall P (skipn k l).
+Proof. revert l; induction k as [|k IH]; intros [|x l] F; cbn; auto. inversion F; auto. Qed.
+
+(* the invariant: dirties = image of the journal, and no sizeChange entry is pending *)
+Definition DI (d0 : smap Z) (m : mstate) : Prop := m_dirt m = dirt_of d0 (m_jr m) /\ Forall not_size (m_jr m).
+
+Lemma DI_append d0 e m : not_size e -> DI d0 m -> DI d0 (append e m).
+Proof.
+  intros NS [D F]. split; cbn [append m_dirt m_jr dirt_of].
+  - destruct (dirtied e); rewrite D; reflexivity.
+  - constructor; assumption.
+Qed.
+
+Lemma DI_with_core d0 m c : DI d0 m -> DI d0 (with_core m c).
+Proof. intros H. exact H. Qed.
+
+Lemma DI_upd d0 a o m : DI d0 m -> DI d0 (upd a o m).
+Proof. intros H. exact H. Qed.
+
+Lemma DI_create_object d0 a m : DI d0 m -> DI d0 (fst (create_object a m)).
+Proof.
+  intros H. unfold create_object. cbn [fst]. unfold with_objs. apply DI_with_core. apply DI_append; [|exact H].
+  destruct (get a (objs (m_core m))); exact I.
+Qed.
+
+Lemma DI_get_or_new d0 a m : DI d0 m -> DI d0 (fst (get_or_new a m)).
+Proof. intros H. unfold get_or_new. destruct (live a (m_core m)); cbn [fst]; [exact H|apply DI_create_object; exact H]. Qed.
+
+Definition dirt_safe (o : op) : bool :=
+  match o with
+  | OSetSize _ _ | OAddSize _ | OSubSize _ => false          (* sizeChange.revert re-journals *)
+  | OAddBalance a v => negb (keqb a ripemd && Z.eqb v 0)      (* RIPEMD touch stays dirty by design *)
+  | _ => true
+  end.
+
+Lemma DI_al_add_slot d0 a s m : DI d0 m -> DI d0 (al_add_slot a s m).
+Proof.
+  intros H. unfold al_add_slot. destruct (get a (al_addr (m_core m))) as [i|].
+  - destruct (Z.ltb i 0); [apply DI_append; [exact I|exact H]|].
+    destruct (nth_error (al_slots (m_core m)) (Z.to_nat i)) as [ss|]; [|exact H].
+    destruct (get s ss); [exact H|]. apply DI_append; [exact I|exact H].
+  - apply DI_append; [exact I|]. apply DI_append; [exact I|exact H].
+Qed.
+
+Lemma DI_mutate d0 fx o m : dirt_safe o = true -> DI d0 m -> DI d0 (fst (mutate fx o m)).
+Proof.
+  intros S H. destruct o; try discriminate; unfold mutate.
+  - destruct (get_or_new a m) as [m1 ob] eqn:G. pose proof (DI_get_or_new d0 a m H) as H1. rewrite G in H1. cbn [fst] in H1.
+    cbn [dirt_safe] in S. destruct (Z.eqb v 0); cbn [fst].
+    + destruct (acct_empty ob); [|exact H1]. unfold touch.
+      rewrite andb_true_r in S. apply negb_true_iff in S. rewrite S. apply DI_append; [exact I|exact H1].
+    + unfold obj_set_balance. apply DI_upd. apply DI_append; [exact I|exact H1].
+  - destruct (get_or_new a m) as [m1 ob] eqn:G. pose proof (DI_get_or_new d0 a m H) as H1. rewrite G in H1. cbn [fst] in H1.
+    destruct (Z.eqb v 0); cbn [fst]; [exact H1|]. apply DI_upd. apply DI_append; [exact I|exact H1].
+  - destruct (get_or_new a m) as [m1 ob] eqn:G. pose proof (DI_get_or_new d0 a m H) as H1. rewrite G in H1. cbn [fst] in H1.
+    cbn [fst]. apply DI_upd. apply DI_append; [exact I|exact H1].
+  - destruct (get_or_new a m) as [m1 ob] eqn:G. pose proof (DI_get_or_new d0 a m H) as H1. rewrite G in H1. cbn [fst] in H1.
+    cbn [fst]. apply DI_upd. apply DI_append; [exact I|exact H1].
+  - destruct (get_or_new a m) as [m1 ob] eqn:G. pose proof (DI_get_or_new d0 a m H) as H1. rewrite G in H1. cbn [fst] in H1.
+    cbn [fst]. apply DI_upd. apply DI_append; [exact I|exact H1].
+  - destruct (get_or_new a m) as [m1 ob] eqn:G. pose proof (DI_get_or_new d0 a m H) as H1. rewrite G in H1. cbn [fst] in H1.
+    destruct (N.eqb (getw k (a_stor ob)) v); cbn [fst]; [exact H1|]. apply DI_upd. apply DI_append; [exact I|exact H1].
+  - destruct (live a (m_core m)); cbn [fst]; [|exact H]. apply DI_upd. apply DI_append; [exact I|exact H].
+  - destruct (create_object a m) as [m1 prev] eqn:C. pose proof (DI_create_object d0 a m H) as H1. rewrite C in H1. cbn [fst] in H1.
+    destruct prev; cbn [fst]; [apply DI_upd|]; exact H1.
+  - cbn [fst]. apply DI_get_or_new. exact H.
+  - cbn [fst]. apply DI_with_core. apply DI_append; [exact I|exact H].
+  - destruct (get h (preim (m_core m))); cbn [fst]; [exact H|]. apply DI_with_core. apply DI_append; [exact I|exact H].
+  - cbn [fst]. apply DI_with_core. apply DI_append; [exact I|exact H].
+  - cbn [m_core append]. destruct (N.ltb (refund (m_core m)) g); cbn [fst]; [|apply DI_with_core]; apply DI_append; try exact I; exact H.
+  - destruct (get a (al_addr (m_core m))); cbn [fst]; [exact H|]. apply DI_append; [exact I|exact H].
+  - cbn [fst]. apply DI_al_add_slot. exact H.
+  - destruct (N.eqb (getw (a ++ k) (transient (m_core m))) v); cbn [fst]; [exact H|]. apply DI_with_core. apply DI_append; [exact I|exact H].
+  - exact H.
+  - exact H.
+Qed.
+
+Lemma DI_step d0 fx x o : dpos d0 -> dirt_safe o = true -> DI d0 (s_m x) -> DI d0 (s_m (fst (step fx x o))).
+Proof.
+  intros P S H. destruct (is_mut o) eqn:M.
+  - destruct (step_mut fx x o M) as (E1 & _). rewrite E1. apply DI_mutate; assumption.
+  - destruct o; try discriminate.
+    + exact H.
+    + cbn [step]. destruct (search_rev id (s_revs x) 0) as [[i [id' n]]|]; [|exact H].
+      destruct (N.eqb id' id); [|exact H]. unfold rewind.
+      destruct (rewind_core n (m_core (s_m x)) (m_jr (s_m x))) as [[c j]|] eqn:R; [|exact H].
+      cbn [fst s_m]. destruct H as [D F]. apply rewind_core_skipn in R. subst j.
+      split; cbn [m_dirt m_jr].
+      * rewrite D. apply rewind_dirt_image; assumption.
+      * apply Forall_skipn. exact F.
+Qed.
+
+Lemma DI_run d0 fx ops : forall x, dpos d0 -> forallb dirt_safe ops = true -> DI d0 (s_m x) -> DI d0 (s_m (run fx x ops)).
+Proof.
+  induction ops as [|o t IH]; intros x P S H; cbn in *; [exact H|].
+  apply andb_prop in S as [S1 S2]. apply IH; [exact P|exact S2|]. apply DI_step; assumption.
+Qed.
+
+Lemma wf_dirtb_dpos d : wf_dirtb d = true -> forall a, get a d <> Some 0%Z.
+Proof.
+  unfold wf_dirtb. intros H a G. apply andb_prop in H as [S Z]. apply sortedb_sorted in S.
+  pose proof (forallb_get _ _ _ _ S Z G) as E. cbn in E. discriminate.
+Qed.
+
+(* ---------- revisions ---------- *)
+Lemma revs_split x id n : Inv x -> In (id, n) (s_revs x) ->
+  exists l1 l2, s_revs x = l1 ++ (id, n) :: l2 /\ (forall r, In r l1 -> (fst r < id)%N).
+Proof.
+  intros I Hin. apply in_split in Hin as (l1 & l2 & E). exists l1, l2. split; [exact E|].
+  intros r Hr. pose proof (inv_sorted x I) as S. rewrite E in S.
+  apply (SS_app_rel Rrev l1 ((id, n) :: l2) r (id, n) S Hr (or_introl eq_refl)).
+Qed.
+
+(* reverting to a valid revision never panics (no nil dereference inside journal.revert) *)
+Lemma revert_valid_ok fx x id : Inv x -> In id (map fst (s_revs x)) ->
+  snd (step fx x (ORevert id)) = OutNone /\ ~ In id (map fst (s_revs (fst (step fx x (ORevert id))))).
+Proof.
+  intros I Hin. apply in_map_iff in Hin as ([id' n] & E & Hin). cbn in E. subst id'.
+  destruct (revs_split x id n I Hin) as (l1 & l2 & Er & Old).
+  destruct (inv_back x I _ Hin) as (c & j & R & _). cbn [snd] in R.
+  cbn [step]. rewrite Er, search_rev_found by exact Old. rewrite N.eqb_refl. unfold rewind. rewrite R.
+  cbn [fst snd s_revs Nat.add]. split; [reflexivity|]. rewrite firstn_length_app.
+  intros H. apply in_map_iff in H as (r & E & Hr). specialize (Old r Hr). lia.
+Qed.
+
+(* an id that is not on the stack of valid revisions: panic, nothing changes *)
+Lemma revert_invalid_panics fx x id : ~ In id (map fst (s_revs x)) -> step fx x (ORevert id) = (x, OutPanic).
+Proof.
+  intros Nin. cbn [step]. destruct (search_rev id (s_revs x) 0) as [[i [id' n]]|] eqn:S; [|reflexivity].
+  destruct (N.eqb id' id) eqn:E; [|reflexivity]. apply N.eqb_eq in E; subst id'.
+  apply search_rev_spec in S as (l1 & l2 & Er & _). exfalso. apply Nin. rewrite Er, map_app.
+  apply in_or_app. right. left. reflexivity.
+Qed.
+
+(* ---------- dirties restored ---------- *)
+Lemma dirt_restored d0 fx x ops :
+  Inv x -> dpos d0 -> DI d0 (s_m x) -> forallb dirt_safe ops = true ->
+  let id := s_next x in
+  let x1 := fst (step fx x OSnapshot) in
+  all_benign fx x1 ops = true ->
+  let x2 := run fx x1 ops in
+  In id (map fst (s_revs x2)) ->
+  m_dirt (s_m (fst (step fx x2 (ORevert id)))) = m_dirt (s_m x).
+Proof.
+  intros I P D S id x1 B x2 Hin.
+  destruct (revert_restores_gen fx x ops I B Hin) as (_ & _ & Ej & _). fold id x1 x2 in Ej.
+  assert (D2 : DI d0 (s_m x2)) by (apply DI_run; [exact P|exact S|exact D]).
+  pose proof (DI_step d0 fx x2 (ORevert id) P eq_refl D2) as [D3 _].
+  rewrite D3, Ej. symmetry. apply D.
+Qed.
+
+(* ---------- call frames ---------- *)
+Lemma anchored_mut fx x y o id :
+  Inv y -> benign fx o (s_m y) = true -> is_mut o = true -> anchored x y id ->
+  anchored x (fst (step fx y o)) id.
+Proof.
+  intros I B M (top & Er & Rw).
+  assert (In (id, length (m_jr (s_m x))) (s_revs y)) as Hid by (rewrite Er; apply in_or_app; right; left; reflexivity).
+  pose proof (inv_idx y I _ Hid) as Ln. cbn [snd] in Ln.
+  destruct (step_mut fx y o M) as (E1 & E2 & _). exists top. rewrite E1, E2. split; [exact Er|].
+  rewrite (extm_rewind _ _ _ (mutate_ext fx o (s_m y) (inv_wf y I) B) Ln). exact Rw.
+Qed.
+
+Lemma anchored_snapshot fx x y id : anchored x y id -> anchored x (fst (step fx y OSnapshot)) id.
+Proof.
+  intros (top & Er & Rw). cbn [step fst]. exists (top ++ [(s_next y, length (m_jr (s_m y)))]). cbn [s_revs s_m].
+  split; [|exact Rw]. rewrite Er, <- app_assoc. reflexivity.
+Qed.
+
+Lemma anchored_self fx y : anchored y (fst (step fx y OSnapshot)) (s_next y).
+Proof. exists []. cbn. split; [reflexivity|]. apply rewind_core_ge. lia. Qed.
+
+Lemma revert_anchored fx x y id :
+  (forall r, In r (s_revs x) -> (fst r < id)%N) -> anchored x y id ->
+  snd (step fx y (ORevert id)) = OutNone /\
+  m_core (s_m (fst (step fx y (ORevert id)))) = m_core (s_m x) /\
+  m_jr (s_m (fst (step fx y (ORevert id)))) = m_jr (s_m x) /\
+  s_revs (fst (step fx y (ORevert id))) = s_revs x /\
+  s_next (fst (step fx y (ORevert id))) = s_next y.
+Proof.
+  intros Old (top & Er & Rw). cbn [step]. rewrite Er, search_rev_found by exact Old. cbn [Nat.add].
+  rewrite N.eqb_refl. unfold rewind. rewrite Rw. cbn [fst snd s_m s_revs s_next m_core m_jr].
+  rewrite firstn_length_app. auto.
+Qed.
+
+Lemma anchored_same x y y' id :
+  s_revs y' = s_revs y -> m_core (s_m y') = m_core (s_m y) -> m_jr (s_m y') = m_jr (s_m y) ->
+  anchored x y id -> anchored x y' id.
+Proof. intros E1 E2 E3 (top & Er & Rw). exists top. rewrite E1, E2, E3. auto. Qed.
+
+Fixpoint frame_ind' (P : frame -> Prop) (HOp : forall o, P (FOp o))
+    (HCall : forall body fails, Forall P body -> P (FCall body fails)) (f : frame) : P f :=
+  match f with
+  | FOp o => HOp o
+  | FCall body fails =>
+      HCall body fails ((fix go (l : list frame) : Forall P l :=
+                           match l with
+                           | [] => Forall_nil P
+                           | g :: l' => Forall_cons g (frame_ind' P HOp HCall g) (go l')
+                           end) body)
+  end.
+
+(* the flag only ever goes from true to false *)
+Lemma fold_flag fx (l : list frame) :
+  (forall f y b, In f l -> snd (exec fx f (y, b)) = true -> b = true) ->
+  forall acc, snd (fold_left (fun acc g => exec fx g acc) l acc) = true -> snd acc = true.
+Proof.
+  induction l as [|g l IH]; intros H acc; cbn [fold_left]; [auto|].
+  intros E. apply IH in E; [|intros f y b Hf; apply H; right; exact Hf].
+  destruct acc as [y b]. cbn [snd]. apply (H g y b (or_introl eq_refl) E).
+Qed.
+
+Lemma exec_flag fx f : forall y b, snd (exec fx f (y, b)) = true -> b = true.
+Proof.
+  induction f as [o|body fails IHb] using frame_ind'; intros y b; cbn [exec fst snd].
+  - intros H. apply andb_prop in H as [H _]. apply andb_prop in H as [H _]. exact H.
+  - intros H.
+    assert (snd (fold_left (fun acc g => exec fx g acc) body (fst (step fx y OSnapshot), b)) = true) as H'
+      by (destruct fails; exact H).
+    apply fold_flag in H'; [exact H'|].
+    intros f y0 b0 Hf. rewrite Forall_forall in IHb. apply (IHb f Hf).
+Qed.
+
+(* what executing a frame (or a list of frames) guarantees *)
+Definition frame_ok (fx : bool) (run1 : sdb * bool -> sdb * bool) : Prop :=
+  forall y b, Inv y -> snd (run1 (y, b)) = true ->
+    Inv (fst (run1 (y, b))) /\ (s_next y <= s_next (fst (run1 (y, b))))%N /\
+    (forall x id, anchored x y id -> anchored x (fst (run1 (y, b))) id).
+
+Lemma frames_ok fx body : Forall (fun f => frame_ok fx (exec fx f)) body ->
+  frame_ok fx (fun acc => fold_left (fun acc g => exec fx g acc) body acc).
+Proof.
+  induction body as [|g l IH]; intros F y b I H; cbn [fold_left] in *.
+  - cbn [fst]. split; [exact I|split; [lia|auto]].
+  - inversion F as [|? ? Fg Fl]; subst.
+    assert (snd (exec fx g (y, b)) = true) as Hg
+      by (apply (fold_flag fx l (fun f y0 b0 _ => exec_flag fx f y0 b0)); exact H).
+    destruct (Fg y b I Hg) as (I1 & N1 & A1).
+    destruct (exec fx g (y, b)) as [y1 b1] eqn:E1. cbn [fst snd] in *.
+    destruct (IH Fl y1 b1 I1 H) as (I2 & N2 & A2).
+    split; [exact I2|split; [lia|]]. intros x id A. apply A2. apply A1. exact A.
+Qed.
+
+Lemma exec_ok fx f : frame_ok fx (exec fx f).
+Proof.
+  induction f as [o|body fails IHb] using frame_ind'; intros y b I H.
+  - cbn [exec fst snd] in *. apply andb_prop in H as [H B]. apply andb_prop in H as [_ M].
+    split; [apply Inv_step; assumption|split].
+    + destruct (step_mut fx y o M) as (_ & _ & E3 & _). rewrite E3. lia.
+    + intros x id A. apply anchored_mut; assumption.
+  - cbn [exec fst snd] in *.
+    set (y1 := fst (step fx y OSnapshot)) in *.
+    assert (I1 : Inv y1) by (apply Inv_step; [exact I|reflexivity]).
+    assert (Hr : snd (fold_left (fun acc g => exec fx g acc) body (y1, b)) = true) by (destruct fails; exact H).
+    destruct (frames_ok fx body IHb y1 b I1 Hr) as (I2 & N2 & A2).
+    assert (s_next y1 = s_next y + 1)%N as Ny by reflexivity.
+    destruct fails; cbn [fst snd].
+    + (* the frame fails: RevertToSnapshot(id of this frame) *)
+      set (y2 := fst (fold_left (fun acc g => exec fx g acc) body (y1, b))) in *.
+      assert (Old : forall r, In r (s_revs y) -> (fst r < s_next y)%N) by (intros r Hr0; apply (inv_ids y I r Hr0)).
+      pose proof (A2 y (s_next y) (anchored_self fx y)) as Ay.
+      destruct (revert_anchored fx y y2 (s_next y) Old Ay) as (_ & Ec & Ej & Er & En).
+      split; [apply Inv_step; [exact I2|reflexivity]|split; [rewrite En; lia|]].
+      intros x id A. apply (anchored_same x y); auto.
+    + split; [exact I2|split; [lia|]]. intros x id A. apply A2. apply anchored_snapshot. exact A.
+Qed.
+
+(* a failing frame, at any depth, leaves the journalled state exactly as it found it *)
+Lemma failed_frame_restores fx y body :
+  Inv y -> snd (exec fx (FCall body true) (y, true)) = true ->
+  let y' := fst (exec fx (FCall body true) (y, true)) in
+  m_core (s_m y') = m_core (s_m y) /\ m_jr (s_m y') = m_jr (s_m y) /\ s_revs y' = s_revs y /\ Inv y'.
+Proof.
+  intros I H y'. pose proof (exec_ok fx (FCall body true) y true I H) as (I' & _ & _).
+  subst y'. cbn [exec fst snd] in *.
+  set (y1 := fst (step fx y OSnapshot)) in *.
+  assert (I1 : Inv y1) by (apply Inv_step; [exact I|reflexivity]).
+  assert (IHb : Forall (fun f => frame_ok fx (exec fx f)) body) by (apply Forall_forall; intros f _; apply exec_ok).
+  destruct (frames_ok fx body IHb y1 true I1 H) as (_ & _ & A2).
+  assert (Old : forall r, In r (s_revs y) -> (fst r < s_next y)%N) by (intros r Hr0; apply (inv_ids y I r Hr0)).
+  destruct (revert_anchored fx y _ (s_next y) Old (A2 y (s_next y) (anchored_self fx y))) as (_ & Ec & Ej & Er & _).
+  auto.
 Qed.
